@@ -16,8 +16,8 @@ PROPERTY = "C16"
 
 META = {
     "bounds": {
-        "quick": "14 template programs + the 2 repository samples; one layout change at a time at every applicable position: indentation (1-2 chars of {space,tab}), trailing spaces (1-2), spaces next to operators/commas/brackets, blank lines, full-line and end-of-line ; comments and /* */ comments with 2 symbolic body characters, per-letter case of every mnemonic / suffix / index register / hex literal; every contiguous statement run of <= 2 lines moved into an .include file; data values symbolic",
-        "thorough": "same with 3 symbolic comment characters, pairs of simultaneous changes (VERIF_SEED-drawn 300 pairs), include runs of <= 4 lines",
+        "quick": "16 template programs (one of realistic size: macros applying macros, named scope, three `*=` blocks, relocated part) + the 2 repository samples; one layout change at a time at every applicable position: indentation (1-2 chars of {space,tab}), trailing spaces (1-2), spaces next to operators/commas/brackets, blank lines, full-line and end-of-line ; comments and /* */ comments with 2 symbolic body characters, per-letter case of every mnemonic / suffix / index register / hex literal; every contiguous balanced statement run of <= 5 lines (whole macro definitions / scopes included) moved into an .include file; data values symbolic",
+        "thorough": "same with 3 symbolic comment characters, pairs of simultaneous changes (VERIF_SEED-drawn 300 pairs), include runs of <= 8 lines",
     },
     "outside": ["compositions of more than two changes", "layout changes not listed in the property (tabs before operands, spaces before ':' ...)", "comment bodies longer than 3 characters"],
     "oracle": "metamorphic: emitted blocks, addresses and Resolver.get_all_labels() of the re-laid-out text equal those of the canonical text for all slot characters and data values",
@@ -42,6 +42,9 @@ TEMPLATES = [
     "*=0x8000\njmp (0x1234)\njmp [0x1000]\neor (0x10,x)\neor [0x10]\nsbc 0x10,x\n",
     "*=0x8000\n.macro w(c) {\n{{c}}\nrts\n}\nw({\nnop\n})\n",
     "*=0x8000\nphp\npha\nrep #0x30\nsep #0x20\nxba\nplp\n",
+    # a program of realistic size and mix (macros applying macros, loop in a macro, named scope with exported labels,
+    # second `*=` block, relocated routine, forward references)
+    "*=0x8000\nk := 0x12\n.macro store(addr, val) {\nlda.w #val\nsta.l addr\n}\n.macro fill(base, n) {\n.for i := 0, n {\nstore(base + i * 2, i)\n}\n}\n.scope gfx {\ninit:\nfill(0x7e2000, 2)\nrts\ntable:\n.dw table, v + k\n}\n*=0x018000\nmain:\njsr.w gfx.init\nloop:\ndex\nbne loop\n.dl gfx.table, fwd\nstore(fwd, k & 0xff)\n@=0x7e1000\nram:\nlda 0x10,x\njmp.w ram\n*=0x028000\nfwd:\n.db 1, 2\n.dl main, ram\n",
     # string literals holding layout characters: TAB, runs of spaces, comment openers
     "*=0x8000\n.ascii 'a\tb'\nl1:\n.ascii '\t\tz;not a comment'\n.ascii '  two  spaces  '\n.ascii '/* no comment */'\n.dl l1\n.dw v\n",
 ]
@@ -127,7 +130,7 @@ def jobs(tier, seed):
             for v in variants:
                 out.append({"id": f"t{ti:02d}/{site[0]}{si:03d}/{v}", "fam": "slot", "tpl": ti, "sites": [[si, v]], "nc": 2 if tier == "quick" else 3})
         nlines = text.count("\n")
-        maxrun = 2 if tier == "quick" else 4
+        maxrun = 5 if tier == "quick" else 8   # long enough to take a whole macro definition / scope into the included file
         for a in range(1, nlines):
             for b in range(a + 1, min(nlines, a + maxrun) + 1):
                 run_text = "\n".join(text.split("\n")[a:b])
